@@ -1007,6 +1007,8 @@ class Exec:
             return v
         if s.startswith('&raw mut ') or s.startswith('&raw const '):
             pl = s.split(' ', 2)[2]
+            if pl.startswith('(fake) '):
+                pl = pl[7:]
             return self.make_ref(p, fr, pl)
         if s.startswith('&mut '):
             return self.make_ref(p, fr, s[5:])
